@@ -7,6 +7,7 @@ cp /verif/kani/*.rs $S/kani/; echo 'pub(crate) const THOROUGH: bool = false;' > 
 for f in /verif/kani/*.rs; do
   inj=$(grep -m1 '^// @inject' $f | awk '{print $3}'); mod=$(grep -m1 '^// @inject' $f | awk '{print $5}'); [ -z "$mod" ] && mod=verif_kani
   [ -n "$inj" ] && echo "#[cfg(kani)] #[path = \"$S/kani/$(basename $f)\"] pub(crate) mod $mod;" >> $S/repo/$inj
+  grep '^// @append' $f | while read -r _ _ tgt rest; do echo "#[cfg(kani)] $rest" >> $S/repo/${tgt%:}; done
 done
 H=""; for h in "$@"; do H="$H --harness $h"; done
 cd $S/repo
